@@ -44,6 +44,12 @@ func init() {
 		Gen: func(seed uint64, tier string) any {
 			r := NewRand(seed)
 			p := C07Plan{Repo: GenRepoSpec(r.Sub("repo"), 14, 600)}
+			if rz := r.Sub("zones"); rz.Chance(0.4) {
+				// authors in several zones, among them negative ones that are not whole hours
+				for k := rz.Range(1, 4); k > 0; k-- {
+					p.Repo.Graph.Zones = append(p.Repo.Graph.Zones, Pick(rz, []int{0, 60, -60, 330, 345, -210, -570, -150, 765, -720, 840, -1}))
+				}
+			}
 			if r.Chance(0.006) {
 				// rows of two 40000-byte cells: a full block decodes to 20 MB (the 64 KiB limit is per cell, not per row)
 				p.Repo.Base = SynthSpec{N: Pick(r, []int{255, 256, 300}), NCols: 3, Seed: r.Uint64(), Wide: 40000}
